@@ -206,6 +206,7 @@ func (u *upstream) MakeRequestToHost(addr string, req *simpleRequest) {
 		return
 	default:
 	}
+	verifPause("upstream.request.checked", u)
 
 	c, err := u.getClient(addr)
 	if err != nil {
